@@ -170,6 +170,10 @@ func (f *discFixture) snapshot(op *jDiscOp) {
 	op.MyView = u16s(f.vt.MyView())
 }
 
+// number of operations the harness could not complete (blocked / panicked / stuck); after a few of them the rest of
+// the batch is skipped: every one costs a watchdog timeout and the finding is already made
+var discBadOps int
+
 // handle calls HandleMessage under a watchdog (a blocked or panicking call ends the scenario).
 func (f *discFixture) handle(op *jDiscOp, from uint16, data []byte) bool {
 	f.mu.Lock()
@@ -188,8 +192,11 @@ func (f *discFixture) handle(op *jDiscOp, from uint16, data []byte) bool {
 	select {
 	case bad := <-res:
 		op.Bad = bad
-	case <-time.After(3 * time.Second):
+	case <-time.After(1500 * time.Millisecond):
 		op.Bad = "blocked"
+	}
+	if op.Bad != "" {
+		discBadOps++
 	}
 	f.mu.Lock()
 	op.Sends = append([]jSend{}, f.sends...)
@@ -267,6 +274,7 @@ func (f *discFixture) quiesce() bool {
 func (f *discFixture) async(op *jDiscOp, wantTick bool) {
 	if !f.quiesce() {
 		op.Bad = "stuck"
+		discBadOps++
 	}
 	f.mu.Lock()
 	inCollect := f.nQuery == 0 && !f.returned
